@@ -344,6 +344,8 @@ PROPS = {
                   'Meddly.Img.post_closed'],
      'quick': [{'family': 'image', 'flavor': 'plain', 'args': {}}],
      'thorough': [{'family': 'image', 'flavor': 'asan', 'args': {}}],
+     # reproducers of the repaired findings F-A..F-D run first
+     'corpus': [{'family': 'image', 'flavor': 'plain', 'args': {'mode': 'probe'}}],
      'leanchecker': ['MeddlyModel.Ops.Image'],
      'design_ref': 'DESIGN.md §5 C09',
      'level_text': 'Lean model imageG of prepost_set_mtrel::_compute on trees (operand cofactor; relation cofactor at the unprimed then the primed position with '
@@ -364,9 +366,10 @@ PROPS = {
      'level_note': 'Theorems are about the Lean tree model; the C++ shortcuts (terminal copy for identity-reduced relations, C[i]=A[i]*B over skipped identity '
                    'levels, Clevel=max(levels)+makeRedundantsTo, compute table) are not modelled step by step but subsumed by uniqueness of the reduced result; '
                    'the tie to /repo is the sampled correspondence. EV+ is covered at table level only (edge-valued trees are not modelled); real products only on '
-                   'the exactness-safe grid; MT-integer results are compared up to the choice of the negative value when the operand carries several. Known '
-                   'findings F-A/F-B/F-C (NOTES.md) are canonical-form / misuse defects outside the function-level property: the generator is steered away from '
-                   'their triggers by default (--steer 0 and --mode probe reproduce them).',
+                   'the exactness-safe grid; MT-integer results are compared up to the choice of the negative value when the operand carries several. The four '
+                   'defects the family found while it was built (F-A unnormalised EV+ infinity edge, F-B skipped levels in a quasi-reduced result, F-C VM/MV_MULTIPLY '
+                   'accepting EV+ vectors, F-D crash on a quasi-reduced distance set with terminal 0) are repaired in /repo (fix: commits c2a7718, bf000ee, 64c2922, '
+                   '41a8b5e); the generator no longer steers around their triggers and their reproducers run as the corpus (--mode probe).',
      'technique': 'Lean 4 proof (induction on the number of variables, generic in the accumulate/combine arithmetic) + canonicity => uniqueness + differential '
                   'correspondence with the relational table oracle',
      'partial': ['EV+ images: table-level oracle only (no edge-valued tree model)',
